@@ -107,6 +107,10 @@ def run(ctx):
         pool.append(g.function())
     pool += corpus_sources(ctx.budget(6, 40))
     pool.append('int f(int x,int y){ while (x < 1) { x = x + x; } }')
+    # same text positions, different programs: whatever is remembered per source position or per node must not
+    # carry over from one analysis to the next (the second loop writes its guard: not a counted loop)
+    pool.append('int f(int n,int x,int y){ int i; for (i = 0; i < n; i++) { x = x + y; } }')
+    pool.append('int f(int n,int x,int y){ int i; for (i = 0; i < n; i++) { n = x + y; } }')
     # sugar that the analysis rewrites on the fly (must happen on copies, never in the caller's tree)
     pool.append('int f(int x,int y,int z){ y = (int)(x * z); while (x < 1) { x = (long)y; z = -x; y = x++; } }')
     pool.append('int f(int x,int y){ x = (int)(long)(y + y); y = !x; L1: x = +y; }')
